@@ -69,6 +69,8 @@ OPS = [
     # a mutator that gives up now and then before doing anything (finds rules that accept a correct body without asking
     # whether every path runs it: a second "fast" implementation in front of the checked one hides the same way)
     ('fn-early-return', r'^(\s*)((?:pub )?fn \w+(?:<[^>]*>)?\(&mut self[^)]*\) \{)\s*$', r'\1\2 if std::env::args().count() == 7 { return; }'),
+    # .. or that takes a second, wrong way now and then (here: forgetting everything) instead of the checked one
+    ('fn-early-reset', r'^(\s*)((?:pub )?fn \w+(?:<[^>]*>)?\(&mut self[^)]*\) \{)\s*$', r'\1\2 if std::env::args().count() == 7 { *self = Default::default(); return; }'),
     # .. and the same for functions with a result: a "fast path" that answers with a plausible constant now and then
     ('fn-early-bool', r'^(\s*)((?:pub )?fn \w+(?:<[^>]*>)?\([^)]*\) -> bool \{)\s*$', r'\1\2 if std::env::args().count() == 7 { return false; }'),
     ('fn-early-bool', r'^(\s*)((?:pub )?fn \w+(?:<[^>]*>)?\([^)]*\) -> bool \{)\s*$', r'\1\2 if std::env::args().count() == 7 { return true; }'),
